@@ -6,7 +6,9 @@ hierarchy.evaluate docstring and the repository fixtures tests/data/hierarchy (r
 a model/fixture disagreement is a harness error (exit 2), never a verdict.
 
 Spaces (all enumerated completely, nothing sampled); c = number of 0.5 s cells of the common span:
-  fixtures   docstring example + 3 recorded fixture outputs: model == recorded (harness), library == model
+  fixtures   docstring example + 3 recorded fixture outputs: model == recorded (harness error otherwise);
+             library == model on the docstring example and on 70 s / 30 s crops of the fixture (real decimal
+             time stamps, default frame_size 0.1, where the binary64 frame rounding is not exact)
   T          every pair of interval hierarchies (any composition of the c cells per level, nested or not)
              x window x frame_size x transitive x beta          -> hierarchy.tmeasure
   L          every pair of labelled hierarchies (<= 2 labels per level, restricted-growth labellings)
@@ -357,7 +359,18 @@ def fixture_names():
     return ["doc"] + names
 
 
-def check_fixture(acc, name):
+def crop(ivs_hier, labs_hier, t_end):
+    """The first t_end seconds of an annotation (segments starting later dropped, the crossing one clipped)."""
+    out_i, out_l = [], []
+    for lev, labs in zip(ivs_hier, labs_hier):
+        keep = [(seg, lab) for seg, lab in zip(lev, labs) if seg[0] < t_end]
+        out_i.append([[seg[0], min(seg[1], t_end)] for seg, _ in keep])
+        out_l.append([lab for _, lab in keep])
+    return out_i, out_l
+
+
+def bind_fixture(acc, name):
+    """Harness step: the model must reproduce the documented / recorded numbers."""
     ref_i, ref_l, est_i, est_l, kw, recorded = load_fixture(name)
     model = S.evaluate(ref_i, ref_l, est_i, est_l, fast=True, **kw)
     if name != "doc" and set(recorded) != set(model):
@@ -367,37 +380,76 @@ def check_fixture(acc, name):
             raise core.HarnessError("reference model disagrees with the documented value: fixture %s key %s "
                                     "recorded %r model %r" % (name, k, v, model[k]))
         acc.counters["spec.fixture_keys_reproduced"] += 1
-    # the library on the same real-size input against the model
+
+
+def fixture_steps(name):
+    """Real-data (decimal time stamps, default frame_size 0.1) executions of the library, each short enough
+    for the per-state watchdog on a loaded machine: -> list of (kind, ref_i, ref_l, est_i, est_l, cfg)."""
+    ref_i, ref_l, est_i, est_l, kw, _ = load_fixture(name)
+    w = kw.get("window", S.DEFAULT_WINDOW)
+    base = {"window": w, "frame_size": S.DEFAULT_FRAME_SIZE, "beta": S.DEFAULT_BETA, "transitive": False}
+    if name == "doc":
+        r_i, r_l, e_i, e_l = ref_i, ref_l, est_i, est_l
+        s_i, s_l, t_i, t_l = ref_i, ref_l, est_i, est_l
+    else:
+        r_i, r_l = crop(ref_i, ref_l, 70.0)       # keeps the 68.826 s boundary of the estimate
+        e_i, e_l = crop(est_i, est_l, 70.0)
+        s_i, s_l = crop(ref_i, ref_l, 30.0)       # evaluate(): the estimate outlasts the reference
+        t_i, t_l = crop(est_i, est_l, 35.0)
+    steps = [("T", r_i, None, e_i, None, dict(base)),
+             ("T", r_i, None, e_i, None, dict(base, transitive=True)),
+             ("L", r_i, r_l, e_i, e_l, dict(base))]
+    if name != "doc":
+        steps.append(("E", s_i, s_l, t_i, t_l, dict(base)))
+    return steps
+
+
+def check_fixture_step(acc, name, k):
+    kind, ref_i, ref_l, est_i, est_l, cfg = fixture_steps(name)[k]
+    case = {"kind": "fixture", "name": name, "step": k}
+    acc.tick(case)
+    if kind == "T":
+        p, r, f = S.tmeasure(ref_i, est_i, cfg["transitive"], cfg["window"], cfg["frame_size"], cfg["beta"],
+                             fast=True)
+        expect = {"precision": float(p), "recall": float(r), "f": f}
+    elif kind == "L":
+        p, r, f = S.lmeasure(ref_i, ref_l, est_i, est_l, cfg["frame_size"], cfg["beta"], fast=True)
+        expect = {"precision": float(p), "recall": float(r), "f": f}
+    else:
+        expect = S.evaluate(ref_i, ref_l, est_i, est_l, cfg["window"], cfg["frame_size"], cfg["beta"], fast=True)
+    acc.tick(case)
     acc.transitions += 1
     got = err = None
     try:
-        out = H.evaluate(_arrays(ref_i), _lists(ref_l), _arrays(est_i), _lists(est_l), **kw)
-        got = {str(k): float(v) for k, v in out.items()}
+        got = _library(kind, ref_i, ref_l, est_i, est_l, cfg)
     except Exception as e:  # noqa
         err = "%s: %s" % (type(e).__name__, e)
-    judge(acc, "hierarchy.evaluate", lambda: {"kind": "fixture", "name": name}, model, got, err)
+    judge(acc, SITE[kind], lambda: case, expect, got, err)
 
 
 def shard_fixture(name):
     acc = core.Acc(PID)
-    acc.states += 1
-    acc.nontrivial += 1
-    acc.tick({"kind": "fixture", "name": name})
-    check_fixture(acc, name)
-    acc.sample({"kind": "fixture", "name": name})
+    acc.tick({"kind": "fixture", "name": name, "step": 0})
+    bind_fixture(acc, name)
+    for k in range(len(fixture_steps(name))):
+        acc.states += 1
+        acc.nontrivial += 1
+        check_fixture_step(acc, name, k)
+        acc.counters["input.real_data_decimal_times"] += 1
+    acc.sample({"kind": "fixture", "name": name, "step": 0})
     return acc
 
 
 def selftest():
     acc = core.Acc(PID)
-    check_fixture(acc, "doc")
+    bind_fixture(acc, "doc")
 
 
 # --------------------------------------------------------------------------- driver
 def replay(case, acc):
     k = case["kind"]
     if k == "fixture":
-        check_fixture(acc, case["name"])
+        check_fixture_step(acc, case["name"], case.get("step", 0))
         return
     if k not in ("T", "L", "E"):
         raise core.HarnessError("unknown case kind %r" % k)
@@ -538,7 +590,7 @@ def run(run):
     run.explore("V rejected parameters (%d cfg)" % len(cfg_V), mod, "shard_validation", vsh)
 
     run.require_nonvacuous(
-        "spec.fixture_keys_reproduced", "spec.selfcheck_fast_eq_bruteforce",
+        "spec.fixture_keys_reproduced", "spec.selfcheck_fast_eq_bruteforce", "input.real_data_decimal_times",
         "input.window_shorter_than_track", "input.window_covers_track", "input.window_none",
         "input.window_is_one_frame", "input.one_frame_track",
         "input.some_queries_without_reference_triple", "input.no_reference_triple_at_all",
